@@ -187,6 +187,29 @@ Proof.
   now apply (gram_dense V v0 vadd vmul).
 Qed.
 
+(* tensor.nvecs on a holder of any element type B (after /repo 08011d5): the conversion comes first, so the matrix handed to the solver
+   is the Gram matrix, in V, of the CONVERTED denotation — whatever B's own arithmetic would do with the products *)
+Lemma t_double_den {B : Type} (b0 : B) (dbl : B -> V) (X : dense B) : dbl b0 = v0 ->
+  forall i, den_dense v0 (t_double dbl X) i = dbl (den_dense b0 X i).
+Proof.
+  intros H0 i. unfold den_dense, t_double. cbn [dshape ddata].
+  destruct (inb (dshape X) i); [|now rewrite H0]. rewrite <- H0. apply map_nth.
+Qed.
+
+Theorem gram_dense_held_spec {B : Type} (b0 : B) (dbl : B -> V) (X : dense B) (n a b : nat) :
+  dbl b0 = v0 -> wf_dense X -> n < length (dshape X) -> a < nth n (dshape X) 0 -> b < nth n (dshape X) 0 ->
+  exists Y, gram_dense_held v0 vadd vmul dbl X n = Some Y /\
+    Y = gram_dense_impl v0 vadd vmul (t_double dbl X) n /\
+    mget v0 Y a b = gram_spec v0 vadd vmul (dshape X) (fun i => dbl (den_dense b0 X i)) n a b.
+Proof.
+  intros H0 W Hn Ha Hb.
+  assert (W' : wf_dense (t_double dbl X)) by (unfold wf_dense, t_double; cbn [dshape ddata]; rewrite map_length; exact W).
+  exists (gram_dense_impl v0 vadd vmul (t_double dbl X) n). split; [apply (gram_dense_tm_eq (t_double dbl X) n W' Hn)|].
+  split; [reflexivity|].
+  rewrite (gram_dense V v0 vadd vmul (t_double dbl X) n a b Ha Hb). unfold gram_spec. cbn [t_double dshape].
+  apply sum_over_ext. intros i _. now rewrite !(t_double_den b0 dbl X H0).
+Qed.
+
 (* ---------------------------------------------------------------- ttensor.nvecs, dense core *)
 Lemma sum_allsubs_as_sum_n (s : shape) (f : idx -> V) : SO (allsubs s) f = SN (size s) (fun c => f (ind2sub s c)).
 Proof. unfold allsubs. now rewrite sum_over_map. Qed.
@@ -330,4 +353,10 @@ Example gram_tsp_example :
   gram_tsp_tm 0 Nat.add Nat.mul (Nat.eqb 0) (HSparse (to_sptensor 0 (Nat.eqb 0) (Hd 0))) GS (nth 0 Us []) 0
     = Some (gram_t_impl 0 1 Nat.add Nat.mul (mkT (full 0 GS) Us) 0) /\
   option_map (@coo_subs nat) (sptenmat_double_gen Nat.add (Nat.eqb 0) GS 0) = Some [[0; 0]; [0; 1]; [1; 1]].
+Proof. vm_compute. repeat split. Qed.
+
+Example gram_held_example :
+  gram_dense_held 0%Z Z.add Z.mul (fun b : bool => if b then 1%Z else 0%Z) (mkDense [2; 2] [true; false; true; true]) 0 = Some [[2; 1]; [1; 1]]%Z /\
+  gram_dense_held 0%Z Z.add Z.mul (fun x : Z => x) (mkDense [2; 2] [200; 3; 100; 7]%Z) 0 = Some [[50000; 1300]; [1300; 58]]%Z /\
+  gram_dense_tm 0%Z (fun x y => (x + y) mod 256)%Z (fun x y => (x * y) mod 256)%Z (mkDense [2; 2] [200; 3; 100; 7]%Z) 0 = Some [[80; 20]; [20; 58]]%Z.
 Proof. vm_compute. repeat split. Qed.
